@@ -120,21 +120,6 @@ type Sched struct {
 	panics []any
 }
 
-func goid() int64 {
-	var buf [64]byte
-	n := runtime.Stack(buf[:], false)
-	// "goroutine 123 ["
-	var id int64
-	for i := len("goroutine "); i < n; i++ {
-		ch := buf[i]
-		if ch < '0' || ch > '9' {
-			break
-		}
-		id = id*10 + int64(ch-'0')
-	}
-	return id
-}
-
 func (s *Sched) me() *G {
 	id := goid()
 	if id == s.rootID {
